@@ -32,6 +32,24 @@ def run(chk, repo):
     chk.rule("C11-I4", "every read on the open/load paths carries a size argument", 1)
     chk.rule("C11-I5", "read_metadata: descriptor read, then one read(chunksize*record_size) per chunk in order, no seek", 3)
     chk.rule("C11-I6", "nothing reachable from a pixel load performs other I/O", 1)
+    chk.attempt(load_requests, chk, repo)
+    chk.attempt(i123, chk, repo, g, covered_by="load_requests", rules=("C11-I2", "C11-I3"))
+    chk.attempt(i4, chk, repo, g)
+    # I5 / I8
+    chk.attempt(trace_requests, chk, repo)
+    chk.attempt(i5, chk, repo, covered_by="trace_requests", rules=("C11-I5",))
+    chk.attempt(i6, chk, repo, g)
+
+
+def load_requests(chk, repo):
+    """C11-I9: request trace of a pixel load on model images: at most one request per touched group of records_per_chunk lines,
+    each inside that group's byte span and the file, the image file only"""
+    from .load_rules import load_rules
+    load_rules(chk, repo, "C11-I9", ("requests", "confined", "one-file"),
+               "model loads: one request per touched chunk, confined to the chunk's byte span and the file; no other file is opened", thorough=chk.tier == "thorough")
+
+
+def i123(chk, repo, g):
     mod = repo.module(ARRAY)
     gi = mod.func("Array.__getitem__")
     where = f"{mod.relpath}:Array.__getitem__"
@@ -99,6 +117,9 @@ def run(chk, repo):
                 keys = {const_str(k) for k in n.value.keys}
         chk.require(keys == set(params[1:]), "C11-I3", f"{mod.relpath}:to_offset_size", f"chunk info keys {sorted(keys)} == read_chunk parameters {params[1:]}",
                     f"to_offset_size produces keys {sorted(keys)} but read_chunk(f, **chunk_info) expects {params[1:]}", key="to_offset_size:keys")
+
+
+def i4(chk, repo, g):
     # I4: reads with size on open/load paths
     entry_reach = g.reachable(["ceos_alos2.xarray:open_alos2", GETITEM, WRAPPER_GETITEM])
     n_reads = 0
@@ -110,9 +131,9 @@ def run(chk, repo):
                 sized = bool(e.node.args) and not (isinstance(e.node.args[0], ast.Constant) and e.node.args[0].value in (None, -1))
                 chk.require(sized, "C11-I4", f"{fi.module.relpath}:{fi.qualname}", f"{short(e.node, 50)} is bounded by a size argument",
                             f"{short(e.node, 50)} has no size: it reads to the end of the file", key=f"{fi.key}:unbounded-read")
-    # I5 / I8
-    chk.attempt(trace_requests, chk, repo)
-    chk.attempt(i5, chk, repo, covered_by="trace_requests", rules=("C11-I5",))
+
+
+def i6(chk, repo, g):
     # I6
     load_reach = g.reachable([WRAPPER_GETITEM])
     allowed = {GETITEM: {"fs_open"}, f"{ARRAY}:read_chunk": {"fs_read"}}
@@ -127,7 +148,7 @@ def run(chk, repo):
                 bad.append(repr(e))
     chk.require(not bad, "C11-I6", "load path", f"{len(load_reach)} functions reachable from a pixel load: no I/O besides the open and read_chunk",
                 f"additional I/O during a pixel load: {bad[:3]}", key="load:extra-io")
-    chk.count("functions", len(entry_reach))
+    chk.count("functions", len(load_reach))
 
 
 def trace_requests(chk, repo):
